@@ -67,33 +67,36 @@ def decorate(sc):
 
 
 def partial(kind, sid0):
-    """every way of consuming a chunk partly and pulling again (one-shot and buffered), small sizes, sequential"""
+    """every way of consuming a chunk partly and pulling again (one-shot and buffered), small sizes, sequential;
+    the second chunk is taken through every way of discarding its rest (drop, fold, nth, count, last)"""
     out = []
     j = 0
+    fins = (0, 1, 2, 3) if kind in CLONE_KINDS else (0, 4, 5, 6, 7)
     for ln in (4, 5, 6):
         for n in (2, 3):
             for k1 in range(0, n + 1):
                 for k2 in (None, 1):
                     for buffered in (True, False):
-                        via = (j % 4) | (0 if kind in CLONE_KINDS or j % 8 < 4 else 4)
-                        j += 1
-                        a = {"op": "bnext" if buffered else "chunk", "take": k1, "via": via}
-                        b = {"op": "bnext" if buffered else "chunk", "via": (via + 1) % 8 if kind not in CLONE_KINDS else (via + 1) % 4}
-                        if k2 is not None:
-                            b["take"] = k2
-                        c = {"op": "bnext" if buffered else "chunk"}
-                        if not buffered:
-                            a["n"], b["n"], c["n"] = n, n, n + 1
-                        pre = ([{"op": "bnew", "n": n}] if buffered else []) + [a, b, c]
-                        if buffered and j % 3 == 0:
-                            pre.append({"op": "bdrop"})
-                        sc = {"id": sid0 + len(out), "kind": kind, "len": ln, "threads": [], "pre": pre,
-                              "post": [{"op": "len"}, {"op": "intoseq"} if j % 2 else {"op": "drop"}]}
-                        if kind in ("range", "rangeref"):
-                            sc["start"] = (0, 5)[j % 2]
-                        if kind in TICKET_KINDS:
-                            sc["hint"] = ("exact", "inexact", "unbounded")[j % 3]
-                        out.append(sc)
+                        for bvia in (fins if k2 is not None else (j % 4,)):
+                            j += 1
+                            avia = (j % 4) | (4 if kind not in CLONE_KINDS and j % 5 == 0 else 0)
+                            a = {"op": "bnext" if buffered else "chunk", "take": k1, "via": avia}
+                            b = {"op": "bnext" if buffered else "chunk", "via": bvia}
+                            if k2 is not None:
+                                b["take"] = k2
+                            c = {"op": "bnext" if buffered else "chunk"}
+                            if not buffered:
+                                a["n"], b["n"], c["n"] = n, n, n + 1
+                            pre = ([{"op": "bnew", "n": n}] if buffered else []) + [a, b, c]
+                            if buffered and j % 3 == 0:
+                                pre.append({"op": "bdrop"})
+                            sc = {"id": sid0 + len(out), "kind": kind, "len": ln, "threads": [], "pre": pre,
+                                  "post": [{"op": "len"}, {"op": "intoseq"} if j % 2 else {"op": "drop"}]}
+                            if kind in ("range", "rangeref"):
+                                sc["start"] = (0, 5)[j % 2]
+                            if kind in TICKET_KINDS:
+                                sc["hint"] = ("exact", "inexact", "unbounded")[j % 3]
+                            out.append(sc)
     return out
 
 
